@@ -58,7 +58,7 @@ def work_replay(run, kv):
         shutil.copytree(os.path.join(VERIF, "vwork"), src, ignore=shutil.ignore_patterns("target", "Cargo.lock"))
         ct = open(os.path.join(src, "Cargo.toml")).read().replace('path = "/repo"', 'path = "%s"' % core.REPO)
         open(os.path.join(src, "Cargo.toml"), "w").write(ct)
-        shutil.copy(os.path.join(core.REPO, "Cargo.lock"), os.path.join(src, "Cargo.lock"))
+        core.copy_lock(os.path.join(src, "Cargo.lock"))
     b = core.sh(["cargo", "build", "--offline", "--manifest-path", os.path.join(src, "Cargo.toml"),
                  "--target-dir", os.path.join(run.dir, "vwork-target")], env=run.env, check=False, timeout=900)
     if b.returncode != 0:
@@ -202,6 +202,12 @@ def main():
     except Inconclusive as e:
         print("INCONCLUSIVE (pipeline): %s" % (str(e)[:3000],))
         evidence["coverage"]["explanation"] = "pipeline stopped: " + str(e)[:500]
+        exit_code = 2
+    except Exception as e:  # noqa: a driver error is never a verdict
+        import traceback
+        traceback.print_exc()
+        print("INCONCLUSIVE (driver error): %r" % (e,))
+        evidence["coverage"]["explanation"] = "driver error: %r" % (e,)
         exit_code = 2
     finally:
         evidence["wall_s"] = round(time.time() - run.t0, 1)
